@@ -9,9 +9,10 @@ Require Import Pyrefact.SubstModel Pyrefact.SubstProofs Pyrefact.ExprModel Pyref
    source byte for byte (restore = _substitute_original_(f)strings, which leave an unchanged text alone;
    the harness checks that on every source). *)
 Theorem T14_1_no_match_identity :
-  forall (valid : text -> bool) (restore : text -> text -> text) (src tmpl : text) (count : Z),
+  forall (valid : text -> bool) (wrap : range -> bool) (mlstr : text -> bool)
+         (restore : text -> text -> text) (src tmpl : text) (count : Z),
     (forall s, restore s s = s) ->
-    subn_items src tmpl count [] = Some [] /\ subn_output valid restore src [] = src.
+    subn_items src tmpl count [] = Some [] /\ subn_output valid wrap mlstr restore src [] = src.
 Proof. exact no_match_identity. Qed.
 Print Assumptions T14_1_no_match_identity.
 
@@ -62,23 +63,25 @@ Print Assumptions T14_3_applied_disjoint.
    splice of the source at the scheduled ranges, ascending: every character outside them is the
    source's, in order. *)
 Theorem T14_4_untouched_text :
-  forall (valid : text -> bool) (src : text) (items : list (range * text)),
+  forall (valid : text -> bool) (wrap : range -> bool) (mlstr : text -> bool) (src : text)
+         (items : list (range * text)),
     Forall (fun it => range_ok (length src) (fst it)) items ->
     exists asc : list (nrw Z),
       map nkey asc = rev (map nat_range (map (fun e : tkey * rewrite text => rrng (snd e))
                                              (subn_sched_text src items)))
       /\ chain_ok Z (length src) 0 asc
-      /\ subn_candidate valid src items = build Z 0 src asc.
+      /\ subn_candidate valid wrap mlstr src items = build Z 0 src asc.
 Proof. exact candidate_is_simultaneous_splice. Qed.
 Print Assumptions T14_4_untouched_text.
 
 (* the value subn returns is the source (validity rollback, T10.5) or that text after the
    string-restoring step *)
 Theorem T14_4_output_cases :
-  forall (valid : text -> bool) (restore : text -> text -> text) (src : text)
-         (items : list (range * text)),
-    subn_output valid restore src items = src
-    \/ subn_output valid restore src items = restore src (subn_candidate valid src items).
+  forall (valid : text -> bool) (wrap : range -> bool) (mlstr : text -> bool)
+         (restore : text -> text -> text) (src : text) (items : list (range * text)),
+    subn_output valid wrap mlstr restore src items = src
+    \/ subn_output valid wrap mlstr restore src items
+       = restore src (subn_candidate valid wrap mlstr src items).
 Proof. exact output_cases. Qed.
 Print Assumptions T14_4_output_cases.
 
@@ -93,10 +96,11 @@ Print Assumptions T14_5_never_on_ignored_lines.
 (* ... and every physical line of the source that matches the ignore regex is a contiguous, unchanged
    piece of the rewritten text. *)
 Theorem T14_5_ignored_lines_verbatim :
-  forall (valid : text -> bool) (src : text) (items : list (range * text)),
+  forall (valid : text -> bool) (wrap : range -> bool) (mlstr : text -> bool) (src : text)
+         (items : list (range * text)),
     Forall (fun it => range_ok (length src) (fst it)) items ->
     forall l, In l (ignore_lines src) ->
-    exists pre post, subn_candidate valid src items = pre ++ slice src l ++ post.
+    exists pre post, subn_candidate valid wrap mlstr src items = pre ++ slice src l ++ post.
 Proof. exact ignored_lines_survive. Qed.
 Print Assumptions T14_5_ignored_lines_verbatim.
 
@@ -144,14 +148,20 @@ Proof. exact skipped_keeps_indentation. Qed.
 Print Assumptions T14_9_skipped_keeps_indentation.
 
 (* ... and _do_rewrite leaves the text alone in exactly three situations (identical text, ignored line,
-   that guard); otherwise it splices in the replacement, "pass" for an empty one, or a re-indented copy. *)
+   that guard -- which is not taken when a line of either text begins inside a string literal); otherwise it
+   splices in the replacement (in parentheses when it replaces a generator that shared those of its call),
+   "pass" for an empty one, or a re-indented copy. *)
 Theorem T14_9_do_rewrite_decision :
-  forall (valid : text -> bool) (cur : text) (r : range) (n : text),
+  forall (valid : text -> bool) (wrap : range -> bool) (mlstr : text -> bool) (cur : text) (r : range)
+         (n : text),
     let code := slice cur r in
-    (n = code \/ ignored (ignore_lines cur) r = true \/ sig_lines n = sig_lines code ->
-       do_rewrite valid cur (r, n) = cur)
-    /\ (n <> code -> ignored (ignore_lines cur) r = false -> sig_lines n <> sig_lines code ->
-        exists n', In n' (candidates n) /\ do_rewrite valid cur (r, n) = splice Z cur r n').
+    (n = code \/ ignored (ignore_lines cur) r = true
+     \/ (sig_lines n = sig_lines code /\ mlstr code = false /\ mlstr n = false) ->
+       do_rewrite valid wrap mlstr cur (r, n) = cur)
+    /\ (n <> code -> ignored (ignore_lines cur) r = false ->
+        ~ (sig_lines n = sig_lines code /\ mlstr code = false /\ mlstr n = false) ->
+        exists n', In n' (candidates (wrapped wrap r n))
+                   /\ do_rewrite valid wrap mlstr cur (r, n) = splice Z cur r n').
 Proof. exact do_rewrite_decision. Qed.
 Print Assumptions T14_9_do_rewrite_decision.
 
